@@ -103,6 +103,10 @@ func (s *XModel) updateExtUtxo(tx *pb.Transaction, batch kvdb.Batch) error {
 		}
 		if len(tx.Blockid) > 0 {
 			s.batchCache.Store(string(bucketAndKey), valueVersion)
+		} else {
+			// 未确认交易的写入会立即落盘, 上一个区块留下的batchCache对这个key已经过期,
+			// 否则后续引用旧版本的交易会通过verifyInputs
+			s.batchCache.Delete(string(bucketAndKey))
 		}
 		s.bucketCacheStore(txOut.Bucket, valueVersion, &kledger.VersionedData{
 			RefTxid:   tx.Txid,
